@@ -40,6 +40,11 @@ func l2Base(idx int, ctx *core.Ctx) *core.Scenario {
 			"n := 0\nwhile true\n    l := read\n    n = n + (len l)\n    print n\nend\n",
 			"on key k:string\n    print \"key\" k\n    l := read\n    print \"line\" l\nend\n",
 			"func ask:string\n    print \"?\"\n    return read\nend\nprint (ask) (ask)\n",
+			"print \"hello\" (read)\nprint \"after\"\n",
+			"test \"x\" (read)\nprint \"after\"\n",
+			"sleep (len (read))\nprint \"slept\"\n",
+			"on key k:string\n    print k (upper (read))\nend\n",
+			"m := {k:(read)}\nprint m\nexit (len (read))\n",
 		}
 		sc = &core.Scenario{Property: "C14", Seed: ctx.Seed, Index: idx, Kind: "l2:blocked-read", Program: progs[r.Intn(len(progs))], RandSeed: 1, ReplayExact: true}
 		sc.Events = []core.Event{{Name: "key", Str: []string{"a"}, AtNs: 3_000_000}}
